@@ -168,6 +168,8 @@ func panicAxisScenario(mode string) *Desc {
 	d.Mappings = []MapDesc{{Name: "M0", Keys: km{K1: {60, 0}, K2: {60, 0}}, Axes: []AxisDesc{
 		{Name: "ABS_HAT0Y", Type: "action", Action: "panic", ActNeg: "panic", Min: -1, Max: 1, Deadzone: 0, Pos: []int32{-1, 0, 1}}}}}
 	acts(d, LE, "cc_learning", CU, "channel_up", PA, "panic") // the panic key may be down while the axis triggers panic too
+	acts(d, OU, "octave_up", OD, "octave_down")               // ... and while an up/down pair is held
+	d.OctLo, d.OctHi = 0, 1
 	d.ChSet = []int{0, 1}
 	return d
 }
